@@ -72,6 +72,10 @@ def gen_case(seed, i):
             case["tclass"] = t[2]
         case["out_file"] = rng.random() < 0.3
         case["fmt"] = rng.choice(["default", "json", "csv", "fdupes"])
+        if cfg.get("cache") and rng.random() < 0.4:
+            # XDG_CACHE_HOME empty or relative (the XDG rule: such a value is ignored, $HOME/.cache is used), and the
+            # command started INSIDE the scanned tree: nothing may appear there
+            case["xdg"] = rng.choice(["", "relcache", ".cache"])
         prog = (cfg.get("transform") or "").split(" ")[0]
         if prog in ("cat", "cp", "head", "true", "truncate") and rng.random() < 0.4:
             cfg["knobs"] = {}
@@ -185,7 +189,7 @@ def run_case(case):
             if left and not res.timed_out:       # however fclones ends on its own account, its temporary files must be gone
                 V("temp-files-gone", "%s: TMPDIR not empty after the run: %s" % (tag, left[:5]), res)
             stray = [p for p in os.listdir(rd.home)]
-            if stray:
+            if stray and "xdg" not in case:
                 V("cache-location", "%s: files created under HOME although XDG_CACHE_HOME is set: %s" % (tag, stray), res)
             return after
 
@@ -196,8 +200,11 @@ def run_case(case):
             if case["out_file"]:
                 args += ["-o", os.path.join(outdir, "report.out")]
             runs = 2 if cfg.get("cache") else 1
+            genv, gcwd = env, None
+            if "xdg" in case:
+                genv, gcwd = dict(env, XDG_CACHE_HOME=case["xdg"]), os.path.join(rd.world, case["roots"][0])
             for k in range(runs):
-                res = ops.group(rd, roots, args, env=env, ro=ro, seed=case["seam_seed"] + k, now_ns=T0_NS + k * 10**9)
+                res = ops.group(rd, roots, args, env=genv, ro=ro, seed=case["seam_seed"] + k, now_ns=T0_NS + k * 10**9, cwd=gcwd)
                 traces.append(res.trace)
                 before = judge(res, before, "group run %d" % (k + 1)) if program_writes else (judge(res, before, "group run %d" % (k + 1)) and before)
             completed = res.rc == 0
